@@ -3,7 +3,7 @@ ALL = ["C%02d" % i for i in range(1, 37)]
 
 BASELINE_OFF = ("cd /repo && GOFLAGS=-mod=mod GOPROXY=off GOSUMDB=off GOTOOLCHAIN=local "
                 "go test -json -vet=off -count=1 -timeout 25m ./...")
-HOOK_COMMITS = ["d9bd3981", "91affb0d", "895625aa", "a0f266b2", "acb6a1da", "2c5176d9", "91558341", "756b8833", "9339bb51", "81a9257e"]
+HOOK_COMMITS = ["d9bd3981", "91affb0d", "895625aa", "a0f266b2", "acb6a1da", "2c5176d9", "91558341", "756b8833", "9339bb51", "81a9257e", "a85b3318"]
 
 NOTES = ("Every check: TLC design check of the TLA+ module, then TLC-generated behaviours replayed against /repo's "
          "working tree (harness rebuilt on every run with -tags verif) and/or recorded traces validated by TLC. "
@@ -300,9 +300,11 @@ CHECKS = {
                 "released in every order and re-allocated; the adapter requires distinct non-zero identifiers per prefix, that the "
                 "client's (prefix, identifier)-keyed view equals the Adj-RIB-Out (wrong identifier on a withdrawal = stale entry) and "
                 "that every expected path is present (allocation failure = missing).",
-        "note": "Trusted: as C08. Not covered: two paths that differ only in attributes outside the identifier hash (OTC, unknown "
-                "attributes) on one prefix - they tie in the decision process and the LocRIB domain excludes ties; the 2^32-1 bound "
-                "itself is not reached, only the accounting that leads to spurious exhaustion.",
+        "note": "Trusted: as C08. Pairs of paths on one prefix that differ in exactly one attribute include the attributes that take "
+                "no part in path selection (AGGREGATOR, OTC, an unknown transitive attribute: d0 / dAggr / dOtc / dUnk). Every "
+                "history is replayed again on sessions whose allocation counter starts 0-5 steps before it wraps (hook "
+                "AdjRIBOut.VerifSetLastPathID), so exhaustion checks that look at the counter instead of the identifiers in use "
+                "show; a table with 2^32-1 identifiers in use is not built.",
         "technique": "TLA+ spec RibOut + TLC; behaviour replay against adjRIBOut/pathIDManager",
     },
     "C13": {
